@@ -1112,16 +1112,28 @@ func (P *Prog) checkBalance(r *Result, rule string) {
 			if !ok {
 				return -1
 			}
-			lc, ok := cv(bo.X).(*ssa.Call)
+			k, ok := constInt(bo.Y)
+			if !ok {
+				return -1
+			}
+			// len(*p) <op> k, or (len(*p) - c) <op> k, i.e. len(*p) <op> k + c
+			lx := cv(bo.X)
+			if sub, isSub := lx.(*ssa.BinOp); isSub && (sub.Op == token.SUB || sub.Op == token.ADD) {
+				if c, isC := constInt(sub.Y); isC {
+					if sub.Op == token.SUB {
+						k += c
+					} else {
+						k -= c
+					}
+					lx = cv(sub.X)
+				}
+			}
+			lc, ok := lx.(*ssa.Call)
 			if !ok || callOf(lc).builtin != "len" {
 				return -1
 			}
 			ld, ok := cv(lc.Call.Args[0]).(*ssa.UnOp)
 			if !ok || ld.Op != token.MUL || cv(ld.X) != recvP {
-				return -1
-			}
-			k, ok := constInt(bo.Y)
-			if !ok {
 				return -1
 			}
 			switch {
@@ -1165,7 +1177,7 @@ func (P *Prog) checkBalance(r *Result, rule string) {
 			r.ok(rule, c, P.pos(fn.Pos()), "net effect of exactly one segment on every path")
 		}
 	}
-	r.floor(rule, 6)
+	r.floor(rule, 4)
 }
 
 // lenIsZero: the comparison `len(x) <op> k` taken with the given truth value says exactly len(x) == 0.
@@ -1367,7 +1379,7 @@ func (P *Prog) checkPooledSliceHeader(r *Result, rule string) {
 			}
 		})
 	}
-	r.floor(rule, 3)
+	r.floor(rule, 2)
 }
 
 // checkNoGlobalPooledObject: objects of the per-call pooled types must come
